@@ -74,6 +74,9 @@ pub struct Beh {
     pub strict: bool,
     pub leaves: Vec<Leaf>,
     pub new: NewErr,
+    /// every reason this clause list must be rejected for (Assemble.tla Offences); empty when it is consistent
+    #[serde(default)]
+    pub offs: Vec<NewErr>,
     pub steps: Vec<Step>,
     /// number of clones to create up front (C18 routing)
     #[serde(default)]
@@ -269,11 +272,17 @@ impl Replayer {
                 };
                 let cls = new_err_class(&msg);
                 self.stats.construct_errors += 1;
-                if beh.new.k == "ok" || (cls != beh.new.k && cls != "other") {
+                // any one of the reasons the clause list must be rejected for is a correct report
+                let mut allowed: Vec<&NewErr> = beh.offs.iter().collect();
+                if allowed.is_empty() {
+                    allowed.push(&beh.new);
+                }
+                let reports = |e: &NewErr| cls == e.k && (cls != "ModeConflict" || e.m.is_empty() || msg.contains(&path_of(&e.m)));
+                if beh.new.k == "ok" || (cls != "other" && !allowed.iter().any(|e| cls == e.k)) {
                     self.diverge(beh, 0, "construction", true, json!(beh.new), json!({"panic": msg}));
                 } else if cls == "other" {
                     self.diverge(beh, 0, "construction wording", false, json!(beh.new), json!({"panic": msg}));
-                } else if !beh.new.m.is_empty() && !msg.contains(&path_of(&beh.new.m)) && cls == "ModeConflict" {
+                } else if !allowed.iter().any(|e| reports(e)) {
                     self.diverge(beh, 0, "construction error names another method", true, json!(beh.new), json!({"panic": msg}));
                 }
                 return self.stats.divergences == before;
